@@ -141,6 +141,15 @@ def main():
     # the case budget starts once the model is built and the proofs are checked: a cold build (fresh checkout, changed
     # model) must not eat the exploration
     t_start, t0 = t0, time.time()
+    # source drift: a module of the implementation differs structurally from the one the model was transcribed from. Not a
+    # violation (a harmless rewrite does that too) - the quick tier reacts by exploring three times as long
+    sys.path.insert(0, os.path.join(common.VERIF, "tools"))
+    import fingerprint
+    drift = fingerprint.drift(common.REPO)
+    if drift:
+        print("source-drift: %s differ(s) from the transcribed source: exploring longer" % ", ".join(drift))
+        if tier == "quick":
+            total *= 3
     deadline = t0 + total
 
     # 3. corpus, then generated cases -----------------------------------------------------------
@@ -155,7 +164,7 @@ def main():
         return 2
     # thorough tier: keep exploring fresh random streams until half of the budget is used
     rounds = 1
-    while (tier == "thorough" and time.time() - t0 < 0.5 * total and
+    while ((tier == "thorough" or drift) and time.time() - t0 < 0.5 * total and
            not any(s["oracle"] or s["diff"] for s in summaries)):
         extra = list(mod.gen_cases(common.mk_rng(seed, pid, tier, "round", rounds), tier))
         more, errors = common.run_cases(modname, extra, want_model=model_ok, deadline=deadline - 0.25 * total)
@@ -272,7 +281,7 @@ def main():
         traces_validated_against_impl=n_eval if model_ok else 0,
         compared_observations=nsteps, corpus_cases=len(corpus), random_rounds=rounds,
         situations_hit=dict(sorted(tags.items())),
-        correspondence_disagreements=len(model_bad), oracle_failures=len(oracle_bad),
+        correspondence_disagreements=len(model_bad), oracle_failures=len(oracle_bad), source_drift=drift,
         explanation=getattr(mod, "EXPLANATION", ""),
     )
     common.write_evidence(pid, tier, seed, coverage, list(getattr(mod, "ASSUMPTIONS", [])),
